@@ -97,7 +97,16 @@ fn check_thick(ctx: &mut Ctx, a: Point, b: Point, w: u32, thin: &[Point]) {
             let dot = qx * dx + qy * dy; // = projection * len
             // within w/2 + 2.5 px of the ideal line: (2|cross|)^2 <= (w+5)^2 len^2
             if (4 * (cross as i128) * (cross as i128)) > ((ww + 5) * (ww + 5)) as i128 * len2 as i128 {
-                ctx.violation("thick|pixel-farther-than-w/2+2.5-from-ideal-line", case, || format!("{:?}: distance {:.2} px", p, (cross as f64).abs() / (len2 as f64).sqrt()));
+                // verified cause predicate of the recorded finding: for wide strokes the parallel-line
+                // algorithm draws oblique lines proportionally too thick (up to about 6.5 % per side)
+                let dist = (cross as f64).abs() / (len2 as f64).sqrt();
+                let excess = dist - ww as f64 / 2.0;
+                let sig = if w >= 30 && excess <= 0.075 * ww as f64 + 0.5 {
+                    "thick|pixel-farther-than-w/2+2.5-from-ideal-line|width>=30-and-excess<=7.5%-of-width".to_string()
+                } else {
+                    "thick|pixel-farther-than-w/2+2.5-from-ideal-line".to_string()
+                };
+                ctx.violation(sig, case, || format!("{:?}: distance {:.2} px from the ideal line, w/2 + 2.5 = {:.1}", p, dist, ww as f64 / 2.0 + 2.5));
                 break;
             }
             // within one pixel of the segment's two ends: -len <= dot <= len^2 + len
@@ -176,6 +185,12 @@ fn main() {
             };
             let ws = [1, rng.u32r(2, 20), rng.u32r(2, 8)];
             one(ctx, a, b, &ws);
+            // 1 in 16: display-scale line (up to +-1024) with a width up to 128
+            if rng.chance(1, 16) {
+                let a = Point::new(rng.biased_i32(1024), rng.biased_i32(1024));
+                let b = Point::new(rng.biased_i32(1024), rng.biased_i32(1024));
+                one(ctx, a, b, &[1, rng.u32r(2, 128)]);
+            }
         });
     })
 }
